@@ -894,6 +894,19 @@ func (a *A) mutatedFields(T *types.Named) map[string][]string {
 }
 
 // ruleSingletonState: the mutable fields of the process-wide singletons are a subset of the reviewed table.
+func subsetOf(xs, ys []string) bool {
+	in := map[string]bool{}
+	for _, y := range ys {
+		in[y] = true
+	}
+	for _, x := range xs {
+		if !in[x] {
+			return false
+		}
+	}
+	return true
+}
+
 func (a *A) ruleSingletonState() {
 	tables := map[string]map[string]string{
 		"functions.ExprBridge": {
@@ -924,6 +937,10 @@ func (a *A) ruleSingletonState() {
 		for _, f := range fs {
 			if why, ok := tables[n][f]; ok {
 				a.Ok("singleton:"+n+"."+f, token.NoPos, "%s; mutated by %v", why, mf[f])
+			} else if n == "functions.FunctionRegistry" && len(mf[f]) > 0 && subsetOf(mf[f], append(append([]string{}, mf["functions"]...), mf["categories"]...)) {
+				// bookkeeping of the registry (a generation counter, an index): written only where the registry itself
+				// is written, i.e. by the explicit Register/Unregister operations, never while rows are evaluated
+				a.Ok("singleton:"+n+"."+f, token.NoPos, "written only by the functions that write the registry itself (%v): no evaluation changes it", mf[f])
 			} else {
 				a.Bad("singleton:"+n+"."+f, token.NoPos, "%s.%s is process-wide state mutated by %v and is not in the reviewed table: results of one evaluation can now depend on earlier rows or on another instance (history dependence)", n, f, mf[f])
 			}
